@@ -8,9 +8,9 @@ import time
 from . import c16, core, report
 
 PARAMS = {
-    'quick': dict(gen_bases=120, size_cap=3072, enum_cap=420, enum_bases=60, sequences=300_000, chunk=5000, realfs=0.002),
+    'quick': dict(gen_bases=120, size_cap=3072, enum_cap=420, enum_bases=60, sequences=300_000, chunk=5000, realfs=0.002, scale_bases=16),
     'thorough': dict(gen_bases=1500, size_cap=3072, enum_cap=900, enum_bases=700, sequences=4_000_000, chunk=20000,
-                     realfs=0.02),
+                     realfs=0.02, scale_bases=120),
 }
 
 REAL = ["droop.profile.ElectionProfile: __init__, bltRead (real open/read/decode call sequence), tokenizer, parser, "
@@ -39,6 +39,9 @@ def _work(task):
     if kind == 'seq':
         _, R, seed, bases, first, count, realfs = task
         return c16.work_sequences(R, seed, bases, first, count, realfs)
+    if kind == 'scale':
+        _, R, seed, name, base = task
+        return c16.work_scale(R, seed, name, base)
     _, R, bases = task
     return c16.work_faultfree(R, bases)
 
@@ -57,6 +60,10 @@ def run(R, tier, seed):
         for part in range(nparts):
             tasks.append(('enum', R, seed, name, base, part, nparts))
             arm.append('enum')
+    small = sorted((b for b in bases if 60 <= len(b[1]) <= 700 and b[0].startswith('gen/')), key=lambda b: b[0])
+    for name, base in small[:P['scale_bases']]:
+        tasks.append(('scale', R, seed, name, base))
+        arm.append('scale')
     nseq = P['sequences']
     for first in range(0, nseq, P['chunk']):
         tasks.append(('seq', R, seed, bases, first, min(P['chunk'], nseq - first), P['realfs']))
@@ -67,6 +74,7 @@ def run(R, tier, seed):
     per_arm = {}
     samples = []
     stub_dis = []
+    cpu_max = 0.0
     for a, r in zip(arm, results):
         pa = per_arm.setdefault(a, dict(evaluations=0, outcomes={}, violations=0))
         pa['evaluations'] += r['evals']
@@ -82,6 +90,7 @@ def run(R, tier, seed):
         total['keys'] |= r['keys']
         total['viol'].extend(r['viol'])
         stub_dis.extend(r.get('stub_disagreements', []))
+        cpu_max = max(cpu_max, r.get('cpu_max', 0.0))
         if r['samples'] and len(samples) < 4 and (a == 'seq' or len(samples) < 2):
             samples.extend(r['samples'][:1])
     if stub_dis:
@@ -155,6 +164,7 @@ def run(R, tier, seed):
         raise_sites=dict(total=len(raise_sites), hit=hit,
                          never_hit_lines=sorted(k for k, v in raise_sites.items() if not v)),
         bytes_read=total['bytes'],
+        scale_arm=dict(file_bytes=c16.SCALE_BYTES, cpu_limit_s=c16.CPU_LIMIT, slowest_read_cpu_s=round(cpu_max, 3)),
         simulated_steps_under_clock=total['steps'],
         simulated_runs=total['evals'],
         runs_per_hour=int(total['evals'] / wall * 3600) if wall > 0 else 0,
